@@ -21,14 +21,20 @@ LEVEL = 'model_checking'
 
 STEP_BUDGET = 20000
 
-# directed exhaustive families (small vocabularies in which the swap rules of the simplifier interact)
-FAMILIES = {
-    'power': dict(Ops='{"Power","IntToFloat","Absolute","Multiply"}', LeafSet='{3, 9, 10, 27}', MaxOps=3, MaxNodes=6, MaxLeaves=3),
-    'choose': dict(Ops='{"Choose","TakeDiag","InsertAxis","Transpose"}', LeafSet='{2, 25, 28, 29}', MaxOps=3, MaxNodes=6, MaxLeaves=3),
-    'inflate': dict(Ops='{"Inflate","Diagonalize","Multiply","TakeDiag","Take"}', LeafSet='{1, 2, 13, 14}', MaxOps=3, MaxNodes=6, MaxLeaves=3),
-    'loops': dict(Ops='{"LoopSum","LoopConcat","Take","Inflate","Multiply","Add","IntToFloat"}', LeafSet='{1, 13, 20, 22, 23}', MaxOps=3, MaxNodes=6, MaxLeaves=3),
-    'ravel': dict(Ops='{"Ravel","Unravel","Transpose","Sum","Take","Inflate"}', LeafSet='{2, 13, 25, 28}', MaxOps=3, MaxNodes=6, MaxLeaves=3),
-}
+# directed exhaustive families: tiny vocabularies in which the swap rules of the simplifier interact.
+# quick: every program of every family is replayed (ops <= 2, one family with 3); thorough: one more level.
+def families(quick):
+    d = 2 if quick else 3
+    return {
+        'power': dict(Ops='{"Power"}', LeafSet='{3, 10, 32}' if quick else '{3, 9, 10, 32}', MaxOps=d, MaxNodes=d + 3, MaxLeaves=3),
+        'powabs': dict(Ops='{"Power","Absolute","Multiply","IntToFloat"}', LeafSet='{3, 9, 27}', MaxOps=d, MaxNodes=d + 3, MaxLeaves=3),
+        'diag': dict(Ops='{"Diagonalize","Take","Inflate","Multiply","TakeDiag"}', LeafSet='{1, 13, 14}', MaxOps=d, MaxNodes=d + 3, MaxLeaves=3),
+        'loopsum': dict(Ops='{"LoopSum","Inflate","Multiply"}' if quick else '{"LoopSum","LoopConcat","Inflate","Multiply","Take","Add"}', LeafSet='{22}' if quick else '{1, 13, 22}', MaxOps=3, MaxNodes=5 if quick else 6, MaxLeaves=2 if quick else 3),
+        'choose': dict(Ops='{"TakeDiag","Choose","Transpose","InsertAxis"}', LeafSet='{2, 25, 29}' if quick else '{2, 25, 28, 29}', MaxOps=d, MaxNodes=d + 3, MaxLeaves=3),
+        'ravel': dict(Ops='{"Ravel","Unravel","Transpose","Sum","Take","Inflate"}', LeafSet='{2, 13}' if quick else '{2, 13, 25, 28}', MaxOps=d, MaxNodes=d + 3, MaxLeaves=2 if quick else 3),
+        'suminflate': dict(Ops='{"Sum","Inflate","Multiply","Add","InsertAxis"}', LeafSet='{1, 13, 14}', MaxOps=d, MaxNodes=d + 3, MaxLeaves=3),
+        'core': dict(Ops='CoreOps', LeafSet='{1, 2, 13}' if quick else '{1, 2, 9, 10, 13, 14, 22}', MaxOps=2, MaxNodes=4 if quick else 5, MaxLeaves=2 if quick else 3),
+    }
 
 
 def _steps_hook():
@@ -209,31 +215,24 @@ def run(rep):
         rep.notes.append('{}: {:.1f}s'.format(name, time.time() - t0))
     rng = random.Random(rep.seed)
     quick = rep.tier == 'quick'
-    progs = []
-    # exhaustive: core constructors over a small leaf set, two operations deep
-    progs += exprs.generate(rep, 'c01-exh', MaxNodes=5, MaxOps=2, MaxLeaves=3, Ops='CoreOps', LeafSet='{1, 2, 9, 13, 22}' if quick else '{1, 2, 9, 10, 13, 14, 22}', EmitMin=2, exhaustive=True)
-    nexh = len(progs)
-    # simulate: full vocabulary, deeper
-    sims = exprs.generate(rep, 'c01-sim', MaxNodes=12, MaxOps=7, MaxLeaves=5, EmitMin=3, simulate=150 if quick else 3000, depth=13, seed=rep.seed + 1)
-    sims2 = exprs.generate(rep, 'c01-sim-core', MaxNodes=11, MaxOps=6, MaxLeaves=4, Ops='CoreOps', LeafSet='CoreLeaves', EmitMin=3,
-                           simulate=150 if quick else 3000, depth=12, seed=rep.seed + 2)
-    fams = []
-    for name, kw in FAMILIES.items():
-        if quick:   # random walks inside the family vocabulary; the exhaustive enumeration is the thorough tier
-            fp = exprs.generate(rep, 'c01-fam-' + name, EmitMin=2, simulate=60, depth=kw['MaxNodes'] + 1, seed=rep.seed + 7, **kw)
-        else:
-            fp = exprs.generate(rep, 'c01-fam-' + name, EmitMin=2, exhaustive=True, timeout=1500, **kw)
-        rep.constants['family:' + name] = len(fp)
-        fams += exprs.select(fp, 60 if quick else 6000, rng)
+    fams = families(quick)
+    names = list(fams)
+    per = exprs.generate_multi(rep, 'c01-families', [fams[n] for n in names], EmitMin=2, exhaustive=True, timeout=3000)
+    sel = []
+    for n, fp in zip(names, per):
+        rep.constants['family:' + n] = len(fp)
+        sel += [q for q in fp if not dag.unstable(q)] if quick else exprs.select(fp, 8000, rng)
+    nexh = len(sel)
+    # simulate: full vocabulary, deeper, with sharing
+    sims = exprs.generate(rep, 'c01-sim', MaxNodes=12, MaxOps=7, MaxLeaves=5, EmitMin=3, simulate=200 if quick else 4000, depth=13, seed=rep.seed + 1)
     lap('generated')
-    k = 400 if quick else 8000
-    sel = exprs.select(progs, k // 2, rng, need_arg=True) + exprs.select(sims, k // 4, rng, need_arg=True) + exprs.select(sims2, k // 4, rng, need_arg=True) + fams
+    sel += exprs.select(sims, 300 if quick else 6000, rng, need_arg=True)
     # witnesses of recorded findings are always replayed (deterministic KNOWN-FINDING lines; a fixed one must pass)
     from ..report import load_known
     for kf in load_known():
         if kf.get('property') == 'C01' and kf.get('program'):
             sel.append([dict(op=n[0], d=n[1], p=n[2], sh=n[3], dt=n[4], ix=0, cl=True) for n in kf['program']])
-    rep.constants['ExprBuilder'] = dict(exhaustive='CoreOps x 7 leaves, <=2 ops', exhaustive_programs=nexh, simulate_programs=len(sims) + len(sims2), selected=len(sel))
+    rep.constants['ExprBuilder'] = dict(exhaustive_family_programs=nexh, simulate_programs=len(sims), selected=len(sel))
     jobs = [(p, [dict(env=env, node=len(p)) for env in dag.ENVS], []) for p in sel]
     results, stats = dag.evaluate(jobs, tag='c01-eval')
     for st in stats:
